@@ -79,7 +79,7 @@ theorem beN_congr : ∀ (w a b : Nat), a % 256 ^ w = b % 256 ^ w → beN w a = b
 /-! ## pieces have their shapes -/
 
 theorem val_shape {bech : Bytes → Bytes} (hb : BechOK bech) {sh : Nat → Shape} {e : Env}
-    (wf : WF sh e) (s : Seg) : (s.shape sh).ok (s.val bech e) := by
+    (wf : WFEnv sh e) (s : Seg) : (s.shape sh).ok (s.val bech e) := by
   cases s with
   | lit b => simp [Seg.shape, Seg.val, Shape.ok]
   | raw f => exact wf f
@@ -88,7 +88,7 @@ theorem val_shape {bech : Bytes → Bytes} (hb : BechOK bech) {sh : Nat → Shap
 
 /-- one step of decoding: when `headOK` holds, the first piece can be split off -/
 theorem head_split {bech : Bytes → Bytes} (hb : BechOK bech) {sh : Nat → Shape} {e₁ e₂ : Env}
-    (wf₁ : WF sh e₁) (wf₂ : WF sh e₂) (s : Seg) (r : List Seg) (t₁ t₂ : Bytes)
+    (wf₁ : WFEnv sh e₁) (wf₂ : WFEnv sh e₂) (s : Seg) (r : List Seg) (t₁ t₂ : Bytes)
     (hok : headOK sh s r = true)
     (h : s.val bech e₁ ++ (encode bech r e₁ ++ t₁) = s.val bech e₂ ++ (encode bech r e₂ ++ t₂)) :
     s.val bech e₁ = s.val bech e₂ ∧ encode bech r e₁ ++ t₁ = encode bech r e₂ ++ t₂ := by
@@ -112,7 +112,7 @@ theorem head_split {bech : Bytes → Bytes} (hb : BechOK bech) {sh : Nat → Sha
   · exact absurd hok (by simp)
 
 theorem strict_sound {bech : Bytes → Bytes} (hb : BechOK bech) {sh : Nat → Shape} {e₁ e₂ : Env}
-    (wf₁ : WF sh e₁) (wf₂ : WF sh e₂) :
+    (wf₁ : WFEnv sh e₁) (wf₂ : WFEnv sh e₂) :
     ∀ (l : List Seg) (t₁ t₂ : Bytes), strict sh l = true →
       encode bech l e₁ ++ t₁ = encode bech l e₂ ++ t₂ → Agree bech l e₁ e₂ ∧ t₁ = t₂
   | [], t₁, t₂, _, h => ⟨fun _ hs => absurd hs (by simp), by simpa [encode] using h⟩
@@ -128,7 +128,7 @@ theorem strict_sound {bech : Bytes → Bytes} (hb : BechOK bech) {sh : Nat → S
     · exact tl.1 x hx
 
 theorem decodable_sound {bech : Bytes → Bytes} (hb : BechOK bech) {sh : Nat → Shape} {e₁ e₂ : Env}
-    (wf₁ : WF sh e₁) (wf₂ : WF sh e₂) :
+    (wf₁ : WFEnv sh e₁) (wf₂ : WFEnv sh e₂) :
     ∀ (l : List Seg), decodable sh l = true →
       encode bech l e₁ = encode bech l e₂ → Agree bech l e₁ e₂
   | [], _, _ => fun _ hs => absurd hs (by simp)
@@ -173,7 +173,7 @@ theorem agree_iff_fieldsEq {bech : Bytes → Bytes} (hb : BechOK bech) (l : List
 
 /-- a decodable layout is injective in the fields it mentions -/
 theorem key_injective {bech : Bytes → Bytes} (hb : BechOK bech) {sh : Nat → Shape} (l : List Seg)
-    (hd : decodable sh l = true) (e₁ e₂ : Env) (wf₁ : WF sh e₁) (wf₂ : WF sh e₂) :
+    (hd : decodable sh l = true) (e₁ e₂ : Env) (wf₁ : WFEnv sh e₁) (wf₂ : WFEnv sh e₂) :
     encode bech l e₁ = encode bech l e₂ ↔ FieldsEq l e₁ e₂ := by
   rw [← agree_iff_fieldsEq hb]
   exact ⟨decodable_sound hb wf₁ wf₂ l hd, encode_congr bech l e₁ e₂⟩
@@ -186,7 +186,7 @@ theorem take_eq_split {α} [BEq α] [LawfulBEq α] {sub key : List α} (h : (key
 
 /-- an accepted prefix scan returns exactly the records whose subject fields are the subject -/
 theorem scanOK_sound {bech : Bytes → Bytes} (hb : BechOK bech) {sh : Nat → Shape} (sub key : List Seg)
-    (hok : scanOK sh sub key = true) (e₁ e₂ : Env) (wf₁ : WF sh e₁) (wf₂ : WF sh e₂) :
+    (hok : scanOK sh sub key = true) (e₁ e₂ : Env) (wf₁ : WFEnv sh e₁) (wf₂ : WFEnv sh e₂) :
     encode bech sub e₁ <+: encode bech key e₂ ↔ FieldsEq sub e₁ e₂ := by
   simp only [scanOK, Bool.and_eq_true] at hok
   have hk := take_eq_split hok.1
@@ -201,7 +201,7 @@ theorem scanOK_sound {bech : Bytes → Bytes} (hb : BechOK bech) {sh : Nat → S
 /-- an accepted filtered scan (the record is kept only when the remainder of its key after the
     prefix is exactly the rest of its own key) returns exactly the records of the subject -/
 theorem scanFilteredOK_sound {bech : Bytes → Bytes} (hb : BechOK bech) {sh : Nat → Shape} (sub key : List Seg)
-    (hok : scanFilteredOK sh sub key = true) (e₁ e₂ : Env) (wf₁ : WF sh e₁) (wf₂ : WF sh e₂) :
+    (hok : scanFilteredOK sh sub key = true) (e₁ e₂ : Env) (wf₁ : WFEnv sh e₁) (wf₂ : WFEnv sh e₂) :
     (encode bech sub e₁ <+: encode bech key e₂ ∧
       (encode bech key e₂).drop (encode bech sub e₁).length = encode bech (key.drop sub.length) e₂)
       ↔ FieldsEq sub e₁ e₂ := by
@@ -253,16 +253,16 @@ theorem Shape.default_ok : ∀ s : Shape, s.ok s.default
   | .zfree => by simp [Shape.ok, Shape.default]
   | .any => trivial
 
-theorem WF_default (sh : Nat → Shape) : WF sh (Env.default sh) := fun f => Shape.default_ok (sh f)
+theorem WFEnv_default (sh : Nat → Shape) : WFEnv sh (Env.default sh) := fun f => Shape.default_ok (sh f)
 
-theorem WF_setB {sh : Nat → Shape} {e : Env} (wf : WF sh e) (f : Nat) (v : Bytes) (hv : (sh f).ok v) :
-    WF sh (e.setB f v) := by
+theorem WFEnv_setB {sh : Nat → Shape} {e : Env} (wf : WFEnv sh e) (f : Nat) (v : Bytes) (hv : (sh f).ok v) :
+    WFEnv sh (e.setB f v) := by
   intro g
   simp only [Env.setB]
   split
   · rename_i h; rw [h]; exact hv
   · exact wf g
 
-theorem WF_setN {sh : Nat → Shape} {e : Env} (wf : WF sh e) (f : Nat) (v : Nat) : WF sh (e.setN f v) := wf
+theorem WFEnv_setN {sh : Nat → Shape} {e : Env} (wf : WFEnv sh e) (f : Nat) (v : Nat) : WFEnv sh (e.setN f v) := wf
 
 end SM.Keys
